@@ -120,6 +120,31 @@ func (w *World) onWire(kind string, v any, enc []byte) {
 			}
 		}
 		if b.V2 != nil && len(b.V2.Transactions) > 0 {
+			// the proofs a decoder hands out are each their own: growing one (as a proof
+			// update does, by appending) leaves the others as they are
+			{
+				var proofs []*types.StateElement
+				for i := range db.V2.Transactions {
+					v2Parents(&db.V2.Transactions[i], func(se *types.StateElement) { proofs = append(proofs, se) })
+				}
+				snap := make([]string, len(proofs))
+				for i, se := range proofs {
+					snap[i] = fmt.Sprint(se.MerkleProof)
+				}
+				for i, se := range proofs {
+					if len(se.MerkleProof) == 0 {
+						continue
+					}
+					grown := append(se.MerkleProof, types.Hash256{0xee, byte(i)}, types.Hash256{0xef})
+					_ = grown
+					for j, other := range proofs {
+						if j != i && fmt.Sprint(other.MerkleProof) != snap[j] {
+							w.violate(w.propAmong("C09", "C18"), "decoded-proofs-share-memory", fmt.Sprintf("block %s decoded from its compressed form: appending to the proof of parent %d changed the proof of parent %d", short(b.ID()), i, j))
+							break
+						}
+					}
+				}
+			}
 			w.stats.Inc("probe.wire.multiproof")
 			if b.V2.Commitment != db.V2.Commitment {
 				w.violate("C18", "commitment-after-roundtrip", fmt.Sprintf("block %s: commitment changed by the multiproof round trip", short(b.ID())))
